@@ -84,6 +84,7 @@ class SyncPlan(object):
         self.wrte_cap = None   # max WRTE payload (host's maxdata by default)
         self.hold_fail = False
         self.die_on = set()        # device paths: the sync service dies (CLSE, no reply) when a STAT/LIST/RECV request names one of them
+        self.okay_message = b""    # payload carried by the sync OKAY status (its length field is "unused" but a device may fill it)
         self.early_reply = False   # replies may go on the wire BEFORE the OKAY that acknowledges the request WRTE (legal per protocol.txt; adbd itself never does it)
 
     # ---- reply shaping
@@ -248,7 +249,8 @@ class SyncService(object):
                 except ValueError:
                     mode_i = None
                     self.protocol_errors.append("SEND spec %r has no ',<mode>'" % (data,))
-                self.cur = {"path": path, "mode": mode_i, "data": bytearray(), "chunks": [], "mtime": None, "status": None, "spec": data}
+                self.cur = {"path": path, "mode": mode_i, "data": bytearray(), "chunks": [], "mtime": None, "status": None, "spec": data,
+                            "prev_done_time": next((q.get("done_time") for q in reversed(plan.pushed) if q.get("done_time") is not None), None)}
                 plan.pushed.append(self.cur)
                 self.state = "recv"
                 fail = plan.send_fail.get(path)
@@ -283,7 +285,7 @@ class SyncService(object):
                     self.state = "idle"
                 else:
                     cur["status"] = "OKAY"
-                    self._reply(wire.sync_okay(), n)
+                    self._reply(wire.sync_okay() if not plan.okay_message else struct.pack("<II", wire.ID_OKAY, len(plan.okay_message)) + plan.okay_message, n)
                     self.state = "idle"
             else:
                 self.protocol_errors.append("%s record inside SEND" % name)
@@ -331,6 +333,8 @@ class SimDevice(object):
         self.refuse = set()       # dests refused with CLSE
         self.eager = False        # True: the device puts everything it can say on the wire as soon as a host packet arrives (a fast device);
                                   # False: it decides lazily, when the host reads (a slow device)
+        self.okay_delay = 0.0     # the OKAY that acknowledges a host WRTE is sent this many (virtual) seconds late
+        self.wrte_delay = 0.0     # a slow device: each of its WRTE packets becomes ready this many (virtual) seconds after it could first have been sent
         self.window = 1           # device WRTEs that may be un-acknowledged at once (1 = the protocol's stop-and-wait; more = a device that writes ahead of the acks)
         self.early_close = False  # True: a CLSE may follow the stream's last WRTE without waiting for the host's OKAY (adbd closes when the process exits)
         self.silent = False       # device stops talking completely
@@ -435,7 +439,7 @@ class SimDevice(object):
             st = self.streams.get(pkt.arg0)
             if st is not None and st.remote == pkt.arg1 and not st.host_closed and not st.dead:
                 st.host_wrtes += 1
-                st.ctrl.append(Item("OKAY"))
+                st.ctrl.append(Item("OKAY", ready_at=(self.clock.now() + self.okay_delay) if (self.okay_delay and self.clock) else None))
                 if st.service is not None and not st.dev_closed:
                     st.service.on_data(pkt.payload, st.host_wrtes)
         elif cmd == "CLSE":
@@ -541,11 +545,16 @@ class SimDevice(object):
         for st in self.streams.values():
             if st.dead or st.local in self.mute_streams:
                 continue
-            if st.ctrl:
+            if st.ctrl and (st.ctrl[0].ready_at is None or st.ctrl[0].ready_at <= now):
                 out.append((st.ctrl, st))
             if st.data and (len(st.written) - st.acked < self.window or (self.early_close and st.data[0].cmd == "CLSE")):
                 it = st.data[0]
                 if st.okays_emitted >= it.min_okays and not it.hold:
+                    if self.wrte_delay and it.cmd == "WRTE":
+                        if it.ready_at is None:
+                            it.ready_at = now + self.wrte_delay
+                        if it.ready_at > now:
+                            continue
                     out.append((st.data, st))
         return out
 
@@ -564,6 +573,17 @@ class SimDevice(object):
             return None
         if self.conn and self.conn[0].ready_at is not None:
             t = self.conn[0].ready_at
+        for st in self.streams.values():
+            if not st.dead and st.local not in self.mute_streams and st.ctrl and st.ctrl[0].ready_at is not None:
+                t = st.ctrl[0].ready_at if t is None else min(t, st.ctrl[0].ready_at)
+        if self.wrte_delay:
+            self._ready()          # (stamps the heads that just became eligible)
+            for st in self.streams.values():
+                if st.dead or st.local in self.mute_streams or not st.data:
+                    continue
+                it = st.data[0]
+                if it.cmd == "WRTE" and it.ready_at is not None and st.okays_emitted >= it.min_okays and not it.hold and (len(st.written) - st.acked < self.window):
+                    t = it.ready_at if t is None else min(t, it.ready_at)
         return t
 
     def produce(self):
